@@ -148,9 +148,7 @@ Definition lex_number (cs : list Z) : option (token * list Z) :=
       then Some (digits_val [a; b; c; d], digits_val [e; f], digits_val [g; h], r) else None
     | _ => None
     end in
-  match date with
-  | Some (y, m, d, r) => if valid_date y m d then Some (TDate y m d, r) else None  (* strptime raises *)
-  | None =>
+  let number :=
     let (ds, r) := span is_digit cs in
     match r with
     | c :: r1 =>
@@ -158,7 +156,12 @@ Definition lex_number (cs : list Z) : option (token * list Z) :=
                       Some (TDec true (digits_val (ds ++ fs)) (List.length fs), r2)
       else Some (TInt (digits_val ds), r)
     | [] => Some (TInt (digits_val ds), r)
-    end
+    end in
+  match date with
+  | Some (y, m, d, r) =>
+    (* the date rule fails on a non-calendar date (semantic action), the next alternatives are tried *)
+    if valid_date y m d then Some (TDate y m d, r) else number
+  | None => number
   end.
 
 (* One token at [c :: r]; [c] is not skippable.  [sk] skips blanks/comments
